@@ -59,6 +59,57 @@ fn header_entries(hdr: &Header<cfgrammar::Span>) -> Vec<Value> {
         .collect()
 }
 
+fn sym_json(sy: &cfgrammar::yacc::ast::Symbol) -> Value {
+    match sy {
+        cfgrammar::yacc::ast::Symbol::Rule(n, sp) => json!({"t": "rule", "name": cps(n), "span": [sp.start(), sp.end()]}),
+        cfgrammar::yacc::ast::Symbol::Token(n, sp) => json!({"t": "tok", "name": cps(n), "span": [sp.start(), sp.end()]}),
+    }
+}
+
+fn digits(n: usize) -> Vec<u32> {
+    n.to_string().chars().map(|c| c as u32 - 48).collect()
+}
+
+/// the abstract syntax tree exactly as the Yacc parser built it (all fields are public)
+fn ast_json(a: &cfgrammar::yacc::ast::GrammarAST) -> Value {
+    let sp = |s: &cfgrammar::Span| json!([s.start(), s.end()]);
+    let mut tdirs: Vec<usize> = a.token_directives.iter().copied().collect();
+    tdirs.sort();
+    let mut epp: Vec<Value> = a.epp.iter().map(|(k, (s, (v, vs)))| json!({"name": cps(k), "span": sp(s), "val": cps(v), "vspan": sp(vs)})).collect();
+    epp.sort_by_key(|x| x["span"][0].as_u64());
+    let hm = |m: &Option<std::collections::HashMap<String, cfgrammar::Span>>| -> Vec<Value> {
+        let mut v: Vec<Value> = m.as_ref().map(|m| m.iter().map(|(k, s)| json!({"name": cps(k), "span": sp(s)})).collect()).unwrap_or_default();
+        v.sort_by_key(|x| x["span"][0].as_u64());
+        v
+    };
+    let mut precs: Vec<Value> = a.precs.iter().map(|(k, (p, s))| json!({"name": cps(k), "level": p.level,
+        "kind": match p.kind { cfgrammar::yacc::AssocKind::Left => 0, cfgrammar::yacc::AssocKind::Right => 1, cfgrammar::yacc::AssocKind::Nonassoc => 2 },
+        "span": sp(s)})).collect();
+    precs.sort_by_key(|x| x["span"][0].as_u64());
+    json!({
+        "tokens": a.tokens.iter().map(|t| cps(t)).collect::<Vec<_>>(),
+        "tspans": a.spans.iter().map(|s| sp(s)).collect::<Vec<_>>(),
+        "tdirs": tdirs,
+        "start": a.start.as_ref().map(|(n, s)| json!([cps(n), sp(s)])).unwrap_or(json!([])),
+        "epp": epp,
+        "expect": a.expect.as_ref().map(|(n, s)| json!([digits(*n), sp(s)])).unwrap_or(json!([])),
+        "expectrr": a.expectrr.as_ref().map(|(n, s)| json!([digits(*n), sp(s)])).unwrap_or(json!([])),
+        "expect_unused": a.expect_unused.iter().map(sym_json).collect::<Vec<_>>(),
+        "has_avoid": a.avoid_insert.is_some(), "avoid": hm(&a.avoid_insert),
+        "has_implicit": a.implicit_tokens.is_some(), "implicit": hm(&a.implicit_tokens),
+        "precs": precs,
+        "parse_param": a.parse_param.as_ref().map(|(n, t)| json!([cps(n), cps(t)])).unwrap_or(json!([])),
+        "parse_generics": a.parse_generics.as_ref().map(|t| json!([cps(t)])).unwrap_or(json!([])),
+        "rules": a.rules.values().map(|r| json!({"name": cps(&r.name.0), "span": sp(&r.name.1), "pidxs": r.pidxs,
+                                                 "actiont": r.actiont.as_ref().map(|t| json!([cps(t)])).unwrap_or(json!([]))})).collect::<Vec<_>>(),
+        "prods": a.prods.iter().map(|p| json!({"syms": p.symbols.iter().map(sym_json).collect::<Vec<_>>(),
+                                              "prec": p.precedence.as_ref().map(|t| json!([cps(t)])).unwrap_or(json!([])),
+                                              "action": p.action.as_ref().map(|(t, s)| json!([cps(t), sp(s)])).unwrap_or(json!([])),
+                                              "span": sp(&p.prod_span)})).collect::<Vec<_>>(),
+        "programs": a.programs.as_ref().map(|t| json!([cps(t)])).unwrap_or(json!([])),
+    })
+}
+
 fn one(entry: &str, s: &str) -> Value {
     let r = catch(|| match entry {
         "header" => match GrmtoolsSectionParser::new(s, false).parse() {
@@ -74,6 +125,12 @@ fn one(entry: &str, s: &str) -> Value {
             Ok(_) => json!({"class": "ok", "errors": [], "warnings": []}),
             Err(es) => json!({"class": "err", "errors": es.iter().map(|e| json!({"kind": e.to_string(), "spans": spans_of(e)})).collect::<Vec<_>>()}),
         },
+        k if k.starts_with("yast_") => {
+            // the Yacc parser on its own: the AST it builds and the errors of parsing + validation
+            let astv = ASTWithValidityInfo::new(yacckind(&k[5..]), s);
+            json!({"class": if astv.is_valid() { "ok" } else { "err" }, "ast": ast_json(astv.ast()),
+                   "errors": astv.errors().iter().map(|e| json!({"kind": e.to_string(), "spans": spans_of(e)})).collect::<Vec<_>>(), "warnings": []})
+        }
         k => {
             let astv = ASTWithValidityInfo::new(yacckind(&k[5..]), s);
             let warnings = astv.ast().warnings().iter().map(|w| json!({"kind": w.to_string(), "spans": spans_of(w)})).collect::<Vec<_>>();
